@@ -16,6 +16,7 @@ use std::sync::{Arc, Mutex};
 
 static CLOCK: AtomicU64 = AtomicU64::new(1);
 static SWEEPS: AtomicU64 = AtomicU64::new(0);
+static TTL_MANAGER_TICKS: AtomicU64 = AtomicU64::new(0);
 fn stamp() -> u64 {
     CLOCK.fetch_add(1, Ordering::SeqCst)
 }
@@ -554,6 +555,19 @@ async fn run_history(cfg: &HistCfg, seed: u64) -> (Vec<Rec>, Vec<Rec>) {
         let stop = sweep_stop.clone();
         Some(tokio::spawn(async move {
             let mut n = 0u64;
+            if seed % 4 == 0 {
+                // the server's own TTL manager actor (1 ms interval), prodded with Tick messages in between
+                let metrics = Arc::new(redis_sim::observability::Metrics::new(&redis_sim::observability::DatadogConfig::from_env()));
+                let h = redis_sim::production::TtlManagerActor::spawn_with_interval(st.clone(), 1, metrics);
+                while !stop.load(Ordering::SeqCst) {
+                    h.tick();
+                    n += 1;
+                    tokio::task::yield_now().await;
+                }
+                h.shutdown().await;
+                TTL_MANAGER_TICKS.fetch_add(n, Ordering::SeqCst);
+                return;
+            }
             while !stop.load(Ordering::SeqCst) {
                 st.evict_expired_all_shards().await;
                 n += 1;
@@ -828,6 +842,7 @@ pub fn lin_leg(args: &Args) {
         rep.add(&format!("h2:{}", nme), hits1[i] - hits0[i]);
         if i == 0 {
             rep.add("ttl_sweeps_beside_clients", SWEEPS.load(Ordering::SeqCst));
+            rep.add("ttl_manager_actor_ticks_beside_clients", TTL_MANAGER_TICKS.load(Ordering::SeqCst));
         }
     }
     if rep.counters.get("overlapping_pairs").copied().unwrap_or(0) == 0 {
